@@ -39,6 +39,9 @@ func VerifC03NewSyncer(id int, source, runId, checkpointName string, resume bool
 	return ds
 }
 
+// VerifC03SetDelayCap replaces the delay channel by one of the given capacity (sender.delay_channel_size).
+func (ds *DbSyncer) VerifC03SetDelayCap(n int) { ds.delayChannel = make(chan *delayNode, n) }
+
 // VerifC03Parse runs the real parseSourceCommand; returns when it aborts (it never returns normally).
 func (ds *DbSyncer) VerifC03Parse(r *bufio.Reader) (aborted bool) {
 	defer func() {
